@@ -1,13 +1,6 @@
 SPECIFICATION Spec
 CONSTANTS
   Mode = "sim"
-  Fams = {"kw", "prop", "view", "att"}
   MaxLen = 10
-  Mix = 10
-  Bases = {"bare", "info", "rich", "xmpkw"}
-  DeepBases = {}
-  ShallowBases = {}
-  DeepFams = {"kw", "prop", "att"}
-  Std = FALSE
   Emit = TRUE
 INVARIANTS TypeOK Isolated EmitCase
